@@ -470,4 +470,31 @@ def viewViolations (a : Ask) (view : ProcfsView) (o : Obs) : List String :=
 def wpViewViolations (a : WPAsk) (viewOf : Nat → ProcfsView) (o : WPObs) : List String :=
   if noGoneWhileHidden a viewOf o then [] else ["noGoneWhileHidden"]
 
+/-! ### seeded round 5 (C15-8): time is the STEADY clock; the wall clock is no part of any promise
+
+Every instant in this file — `Ask.start`, `Obs.ret`, `Env.exitAt`, the deadline `start + timeout` — is an
+instant of the steady clock (CLOCK_MONOTONIC): the clock `sleep` sleeps by and on which a process "has
+ended by t". "Timeouts honoured" is a promise about elapsed time: a caller who asked for at most τ
+seconds gets the answer within τ seconds plus one poll, whatever an administrator, NTP or a VM resume
+does to the WALL clock (`time.time()`) meanwhile. No clause above mentions the wall clock, i.e. each is
+stated for every wall clock; the clause below says what the timeout promises about ANY way the call
+ends (the clauses `timeoutSound` / `onePollLate` speak about TimeoutExpired only). -/
+
+/-- what the wall clock reads at each steady instant: anything -/
+abbrev WallClock := Rat → Rat
+
+/-- with a timeout τ ≥ 0 the call is over — exit status, None, TimeoutExpired — before
+    start + τ + one 40 ms poll of steady time (a run cut by the observer's loop bound is judged by
+    `comesBack`) -/
+def timeoutHonoured (a : Ask) (o : Obs) : Prop :=
+  match a.timeout with
+  | some τ => 0 ≤ τ → o.out ≠ .outOfFuel → o.out ≠ .hang → o.ret < a.start + τ + cap
+  | none => True
+
+instance (a : Ask) (o : Obs) : Decidable (timeoutHonoured a o) := by
+  unfold timeoutHonoured; split <;> infer_instance
+
+def clockViolations (a : Ask) (o : Obs) : List String :=
+  if timeoutHonoured a o then [] else ["timeoutHonoured"]
+
 end Psutil.C15.Spec
